@@ -10,6 +10,7 @@ import (
 
 	"verif/tools/internal/absint"
 	"verif/tools/internal/core"
+	"verif/tools/internal/ssax"
 )
 
 func init() { register("C17", "other", checkC17) }
@@ -36,17 +37,20 @@ func c17Hooks(xr *xssRoots, name string, hooks *absint.Hooks) {
 	}
 	prevRet, prevStore := hooks.OnReturn, hooks.OnStore
 	lenFld := xr.field("xss.state.tokenLen")
+	// what a helper does (h.find(c), h.emit(type, n)) belongs to the state function that called it
+	ownerOf := func(fr *absint.Frame) *absint.Frame {
+		owner := fr
+		for owner.Caller() != nil && xr.g.Nodes[owner.Fn()] == nil {
+			owner = owner.Caller()
+		}
+		return owner
+	}
 	hooks.OnStore = func(e *absint.Engine, st *absint.State, fr *absint.Frame, store *ssa.Store, p absint.PtrV, v absint.AVal) {
 		if prevStore != nil {
 			prevStore(e, st, fr, store, p, v)
 		}
 		if fa, ok := store.Addr.(*ssa.FieldAddr); ok && fieldName(fa) == lenFld {
-			// a token emitted through a helper (`h.emit(type, n)`) belongs to the state that called it
-			owner := fr
-			for owner.Caller() != nil && xr.g.Nodes[owner.Fn()] == nil {
-				owner = owner.Caller()
-			}
-			e.SetCell(st, ghostScan, "lenFrame", absint.IntV{L: absint.K(int64(owner.ID()))})
+			e.SetCell(st, ghostScan, "lenFrame", absint.IntV{L: absint.K(int64(ownerOf(fr).ID()))})
 		}
 	}
 	hooks.OnSearch = func(e *absint.Engine, st *absint.State, fr *absint.Frame, call *ssa.Call, prev *absint.Hit, cur absint.Hit) {
@@ -56,6 +60,8 @@ func c17Hooks(xr *xssRoots, name string, hooks *absint.Hooks) {
 		}
 		lo := cur.Hay.Lo.Sub(rc.In.Lo)
 		org := int64(call.Pos())
+		searchFr := fr
+		fr = ownerOf(fr)
 		sameFrame := false
 		if fc, ok := e.CellOf(st, ghostScan, "frame"); ok {
 			if f, isC := absint.ConstOf(fc); isC && f == int64(fr.ID()) {
@@ -64,10 +70,15 @@ func c17Hooks(xr *xssRoots, name string, hooks *absint.Hooks) {
 		}
 		e.SetCell(st, ghostScan, "org", absint.IntV{L: absint.K(org)})
 		e.SetCell(st, ghostScan, "frame", absint.IntV{L: absint.K(int64(fr.ID()))})
+		// a needle that is not a constant on this path (the quote parameter of the value lexer);
+		// a helper's parameter bound to a constant — h.find('>') — is a constant needle
 		varNeedle := int64(0)
 		if len(call.Call.Args) > 1 {
 			if _, isConst := call.Call.Args[1].(*ssa.Const); !isConst {
 				varNeedle = 1
+				if bv, isB := e.Val(st, searchFr, call.Call.Args[1]).(absint.ByteV); isB && bv.Root < 0 {
+					varNeedle = 0
+				}
 			}
 		}
 		e.SetCell(st, ghostScan, "var", absint.IntV{L: absint.K(varNeedle)})
@@ -89,7 +100,7 @@ func c17Hooks(xr *xssRoots, name string, hooks *absint.Hooks) {
 			return
 		}
 		if fc, ok := e.CellOf(st, ghostScan, "frame"); ok {
-			if f, isC := absint.ConstOf(fc); isC && f == int64(fr.ID()) {
+			if f, isC := absint.ConstOf(fc); isC && f == int64(ownerOf(fr).ID()) {
 				e.SetCell(st, ghostScan, "lastRead", absint.IntV{L: sv.Lo.Sub(rc.In.Lo).Add(idx)})
 			}
 		}
@@ -183,7 +194,7 @@ func c17Hooks(xr *xssRoots, name string, hooks *absint.Hooks) {
 						c = k
 					}
 				}
-				xr.noteAccepted(hit.Org, c)
+				xr.noteAccepted(fr.Fn(), hit.Org, c)
 			}
 			// O-match: the opener, where known, is the byte searched for
 			vc, _ := e.CellOf(st, ghostScan, "var")
@@ -196,7 +207,7 @@ func c17Hooks(xr *xssRoots, name string, hooks *absint.Hooks) {
 		case e.ProveEQ(st, tokEnd, length):
 			e.Check(st, fr, ret.Pos(), "O-end", "token ends at the accepted terminator or at end of input at "+where, true, "")
 			if !e.ProveLE(st, r, absint.K(-1)) {
-				c := xr.minTerminator(hit.Org)
+				c := xr.minTerminator(fr.Fn(), hit.Org)
 				ok := e.ProveLE(st, length.AddK(1), hpos.AddK(int64(c)))
 				if !ok {
 					// or: the bytes behind the candidate were examined up to the very end of the input
@@ -259,7 +270,7 @@ func checkC17(c *Ctx) *core.Result {
 					continue
 				}
 				cal := call.Call.StaticCallee()
-				if cal == nil || (cal.String() != "strings.IndexByte" && cal.String() != "strings.Index") {
+				if !searchesInput(c.P, g, cal, 0) {
 					continue
 				}
 				searches++
@@ -376,4 +387,24 @@ func tcount(xr *xssRoots, r *core.Result, c *Ctx) {
 	} else {
 		r.OK("T-count", "-", fmt.Sprintf("token count ≤ (L+1)·(|s|+1) with L = %d the longest chain of emitting steps without cursor progress", longest), "-", fmt.Sprintf("%d emitting transitions, %d without proven progress", nTrans, len(adj)))
 	}
+}
+
+// searchesInput: f is strings.IndexByte / strings.Index, or a thin helper (not a state)
+// that calls one of them — h.find(c), indexFrom(s, pos, c).
+func searchesInput(p *core.Program, g *stateGraph, f *ssa.Function, depth int) bool {
+	if f == nil {
+		return false
+	}
+	if f.String() == "strings.IndexByte" || f.String() == "strings.Index" {
+		return true
+	}
+	if depth >= 2 || !p.InModule(f) || len(f.Blocks) > 12 || g.Nodes[f] != nil {
+		return false
+	}
+	for _, ci := range ssax.Calls(f) {
+		if searchesInput(p, g, ci.Common().StaticCallee(), depth+1) {
+			return true
+		}
+	}
+	return false
 }
